@@ -3,12 +3,13 @@
     a schedule (disabled choices are skipped), timeouts are stutter steps. *)
 From Coq Require Import ZArith List Bool.
 From AV Require Import Base.PyList Tok.Model Conc.Workers.
-From AV Require Conc.WorkersSafety Conc.WorkersProgress.
+From AV Require Conc.WorkersSafety Conc.WorkersProgress Conc.Loops.
 Import ListNotations.
 Open Scope Z_scope.
 
 Module S := WorkersSafety.
 Module P := WorkersProgress.
+Module L := Loops.
 
 (** safety invariant of every reachable state (exactly once, in order, ids 1,2,3..., equal to the worker's own list) *)
 Definition C12_inv := @S.C12_inv.
@@ -56,6 +57,22 @@ Theorem C12_round_robin_terminates : forall (A : Type) (c : config) (bsz : A -> 
   exists n, all_exited (exec c bsz cs (init_sys fs nobs ws s_old) (concat (repeat (P.round nobs) n))) = true.
 Proof. exact (@P.round_robin_terminates). Qed.
 
+(** the observer step of the model is one turn of Worker.run's loop (Conc/Loops.v; run_turn is tied to /repo's workers.py by
+    translation on every run) *)
+Theorem C12_observer_step_is_loop_turn : forall (A : Type) (o : obs A) (timeout : bool),
+  opcv o = ORun ->
+  step_obs_one o timeout =
+  match L.obs_answer o timeout with
+  | None => None
+  | Some a =>
+      match L.run_turn a with
+      | L.TContinue => Some o
+      | L.TLeave => Some (mkObs (tl (oinbox o)) (processed o) OExit)
+      | L.TProcess m => Some (mkObs (tl (oinbox o)) (processed o ++ [m]) ORun)
+      end
+  end.
+Proof. exact (@L.step_obs_is_run_turn). Qed.
+
 Print Assumptions C12_inv.
 Print Assumptions C12_final.
 Print Assumptions C12_final_no_stop.
@@ -63,3 +80,4 @@ Print Assumptions C12_no_deadlock.
 Print Assumptions C12_measure_decreases.
 Print Assumptions C12_workers_terminate_alone.
 Print Assumptions C12_round_robin_terminates.
+Print Assumptions C12_observer_step_is_loop_turn.
